@@ -39,8 +39,9 @@ H_REHASH = r'''
 fn c10_needs_rehash() {
     let ops: u64 = kani::any(); let mem: usize = kani::any();
     unsafe { PPS.saltlen = 16; PPS.hashlen = 32; }
+    unsafe { wit!(W_0, &ops.to_le_bytes()); wit!(W_3, &(mem as u64).to_le_bytes()); }   // before the call: a panic inside it must not lose the limits
     let r = crypto_pwhash_str_needs_rehash("x", ops, mem);
-    unsafe { wit!(W_0, &ops.to_le_bytes()); wit!(W_3, &(mem as u64).to_le_bytes()); wit!(W_1, &PPS.t.to_le_bytes()); wit!(W_2, &PPS.m.to_le_bytes()); }
+    unsafe { wit!(W_1, &PPS.t.to_le_bytes()); wit!(W_2, &PPS.m.to_le_bytes()); }
     kani::cover!(r.is_ok(), "answered");
     assert!(r.is_ok(), "REHASH_OK: a parseable string gets an answer");
     unsafe {
@@ -167,35 +168,38 @@ def replay_rehash(v, scratch):
     w = v.get("witness", {})
     le = lambda k, n, d: (int.from_bytes(bytes((w.get(k) or [])[:n]), "little") if w.get(k) else d)
     wops, wmem, wt, wm = le("W_0", 8, 2), le("W_3", 8, 65536), le("W_1", 4, 2), le("W_2", 4, 64)
+    if wt == 0xa1a1a1a1 and wm == 0xa2a2a2a2:   # slots never written: the call did not return (panic) - use plain stored costs
+        wt, wm = 2, 64
     b64 = lambda b: base64.b64encode(b).decode().rstrip("=")
     salt = bytes(range(1, 17)); hsh = bytes(range(100, 132))
     cases = [(wt, wm, wops, wmem)]
     for t, m in [(wt, wm), (2, 64), (3, 100)]:
         if 1 <= t and 8 <= m <= 4194303:
-            cases += [(t, m, t, m * 1024), (t, m, t, m * 1024 + 512), (t, m, t, m * 1024 + 1023), (t, m, t, (m + 1) * 1024), (t, m, t + 1, m * 1024)]
+            cases += [(t, m, wops, wmem), (t, m, t, m * 1024), (t, m, t, m * 1024 + 512), (t, m, t, m * 1024 + 1023), (t, m, t, (m + 1) * 1024), (t, m, t + 1, m * 1024)]
     rows = []
     for t, m, ops, mem in cases:
         st = "$argon2id$v=19$m=%d,t=%d,p=1$%s$%s" % (m, t, b64(salt), b64(hsh))
         rc = so.crypto_pwhash_str_needs_rehash(st.encode() + b"\0", ctypes.c_ulonglong(ops), ctypes.c_size_t(mem))
-        if rc in (0, 1):
-            rows.append((st, ops, mem, rc))
+        rows.append((st, ops, mem, rc))   # rc outside {0, 1}: libsodium refuses the limits - no verdict to compare, a panic still counts
     if not rows:
         return None, "libsodium answers none of the candidate (string, limits) pairs"
     main = r'''
 use dryoc::classic::crypto_pwhash::crypto_pwhash_str_needs_rehash;
 fn main() {
-    let rows: Vec<(&str, u64, usize, bool)> = vec![ROWS];
+    let rows: Vec<(&str, u64, usize, Option<bool>)> = vec![ROWS];
     let mut bad = false;
     for (s, ops, mem, want) in rows {
-        match crypto_pwhash_str_needs_rehash(s, ops, mem) {
-            Ok(b) if b == want => {}
-            r => { println!("MISMATCH REHASH {} opslimit={} memlimit={}: dryoc {:?}, libsodium {}", s, ops, mem, r.map_err(|_| ()), want); bad = true; }
+        match std::panic::catch_unwind(|| crypto_pwhash_str_needs_rehash(s, ops, mem).map_err(|_| ())) {
+            Ok(Ok(b)) if want.is_none() || Some(b) == want => {}
+            Ok(Err(())) if want.is_none() => {}
+            Ok(r) => { println!("MISMATCH REHASH {} opslimit={} memlimit={}: dryoc {:?}, libsodium {:?}", s, ops, mem, r, want); bad = true; }
+            Err(_) => { println!("MISMATCH REHASH panic on {} opslimit={} memlimit={}", s, ops, mem); bad = true; }
         }
     }
     if bad { std::process::exit(1); }
     println!("agree");
 }
-'''.replace("ROWS", ", ".join('("%s", %d, %d, %s)' % (st, ops, mem, "true" if rc else "false") for st, ops, mem, rc in rows))
+'''.replace("ROWS", ", ".join('("%s", %d, %d, %s)' % (st, ops, mem, {0: "Some(false)", 1: "Some(true)"}.get(rc, "None")) for st, ops, mem, rc in rows))
     outs = runner.native_run(scratch, "c10", main, features=["base64"])
     v["replay_input"] = {"rows": rows, "program": main}
     return any(rc == 1 and "MISMATCH" in o for _, rc, o in outs), "; ".join("%s rc=%s %s" % (p_, rc, o.strip()[-300:]) for p_, rc, o in outs)
